@@ -188,7 +188,14 @@ func (x *Exec) load(st *State, p *Pointer, t types.Type) *Value {
 	}
 	return buildValue(t, func(l Leaf) *Term {
 		key, stored, idxs := x.leafKey(p, l)
-		return selectN(x.heapArr(st, key, stored), idxs)
+		arr := x.heapArr(st, key, stored)
+		if strings.HasSuffix(key, "#off") && arr.Op == "const" && strings.HasPrefix(arr.Name, "H0_") {
+			// slices in the entry heap start at offset 0 (offsetAssumption); using the literal keeps
+			// element indices free of symbolic offsets
+			x.trusted[offsetAssumption] = true
+			return IntLit(0)
+		}
+		return selectN(arr, idxs)
 	})
 }
 
